@@ -207,6 +207,15 @@ def decode(j):
     if 'new' in j:
         cls = resolve(j['new'])
         return cls(*[decode(x) for x in j['args']], **{k: decode(v) for k, v in j.get('kwargs', {}).items()})
+    if 'tuple' in j:
+        return tuple(decode(x) for x in j['tuple'])
+    if 'with' in j:
+        o = decode(j['with'])
+        for k, v in j['set'].items():
+            object.__setattr__(o, k, decode(v))
+        return o
+    if 'token' in j:
+        return StubToken(j['token'], 0)
     if 'VisFn' in j:
         return ScriptedVisFn(j['VisFn'], seed=len(json.dumps(j)))
     if 'const' in j:
@@ -256,6 +265,12 @@ def rand_input(sort, r, ctx=None):
             return [rand_input(sort[1], r) for _ in range(sort[2])]
         if sort[0] == 'fn':
             return {'fn': [], 'ret': sort[1], 'salt': r.randint(0, 10 ** 6)}
+        if sort[0] == 'opt':
+            return {'none': 1} if r.random() < 0.4 else rand_input(sort[1], r)
+        if sort[0] == 'tuple':
+            return {'tuple': [rand_input(x, r) for x in sort[1]]}
+        if sort[0] == 'with':
+            return {'with': rand_input(sort[1], r), 'set': {k: rand_input(v, r) for k, v in sort[2].items()}}
         if sort[0] == 'object':
             return {'object': {k: rand_input(v, r) for k, v in sort[1].items()}}
         if sort[0] == 'new':
@@ -271,6 +286,8 @@ def rand_input(sort, r, ctx=None):
         return r.choice([0.0, 1.0, -1.0, 0.5, 2.5, -3.25])
     if sort == 'None':
         return {'none': 1}
+    if sort == 'Token':
+        return {'token': f'tok{r.randint(0, 10 ** 9)}'}
     if sort == 'Orientation':
         return {'enum': sort, 'name': r.choice(['FORWARD', 'BACKWARD', 'LEFT', 'RIGHT'])}
     if sort == 'Action':
@@ -387,7 +404,17 @@ def install_stub(st, sname, ret=None, inputs_json=None):
         calls.append(rec)
         return rec['result']
     setattr(owner, attr, wrapper)
-    return owner, attr, orig
+    patched = [(owner, attr, orig)]
+    if not isinstance(owner, type):
+        # modules that did `from x import f` hold their own reference
+        for mname, m in list(sys.modules.items()):
+            if m is None or m is owner or not mname.startswith('gym_gridverse'):
+                continue
+            for k2, v2 in list(vars(m).items()):
+                if v2 is real:
+                    setattr(m, k2, wrapper)
+                    patched.append((m, k2, real))
+    return patched
 
 
 def run_contract(spec, inputs_json, only=None):
@@ -420,13 +447,15 @@ def run_contract(spec, inputs_json, only=None):
     if not st.pre_ok:
         return out
     target = resolve(spec.target)
+    if isinstance(target, property):
+        target = target.fget
     st.phase = 'body'
     patches = []
     stubs = spec.opts.get('stubs', [])
     if isinstance(stubs, (list, tuple)):
         stubs = {s_: None for s_ in stubs}
     for sname, ret in stubs.items():
-        patches.append(install_stub(st, sname, ret, inputs_json))
+        patches.extend(install_stub(st, sname, ret, inputs_json))
     try:
         st.result = target(*args, **kwargs)
     except Exception as e:
